@@ -75,13 +75,6 @@ Definition model_w (H W len : nat) (vops : list vop) (custom : option shape) (ct
   | _ => WPanic
   end.
 
-Definition merge_op (o : wop) : wop :=
-  match o with
-  | OWrite chunks => OWrite [concat chunks]
-  | OWriteU chunks => OWriteU [concat chunks]
-  | other => other
-  end.
-
 Definition window_of (H W : nat) (vops : list vop) (custom : option shape) : list nat :=
   match custom with
   | Some sh => shape_cells sh
